@@ -522,10 +522,11 @@ def w_verbatim(args):
 # --------------------------------------------------------------------------------------
 SPAN_REPRO = '''from formulaic.parser.algos.tokenize import tokenize
 s = {s!r}
-toks = []
+toks, objs = [], []
 try:
     for t in tokenize(s):
         toks.append((t.token, t.kind.value, t.source_start, t.source_end))
+        objs.append((t, t.get_source_context(), t.get_source_context(colorize=True)))
 except Exception:
     pass
 def subseq(a, b):
@@ -537,6 +538,11 @@ for text, kind, start, end in toks:
     assert start > prev_end, (s, text, start, prev_end)        # ordered, non-overlapping
     assert subseq(text, s[start:end + 1]), (s, text, s[start:end + 1])   # the span holds the token's text
     prev_end = end
+import re
+for t, plain, coloured in objs:
+    want = s[:t.source_start] + "\\u29db" + s[t.source_start:t.source_end + 1] + "\\u29da" + s[t.source_end + 1:]
+    assert plain == want, (s, t.token, plain, want)       # rendered span == recorded span
+    assert re.sub(r"\\x1b\\[[0-9;]*m", "", coloured) == want, (s, t.token, coloured)
 expected = {expected!r}
 if expected is not None:
     got = [(text, start, end) for text, kind, start, end in toks if kind != "operator"]
@@ -553,17 +559,39 @@ def lib_tokens(s):
     from formulaic.parser.algos.tokenize import tokenize
 
     toks = []
+    ctxs = []
     err = None
     try:
         for t in tokenize(s):
             toks.append((t.token, t.kind.value if t.kind else None, t.source_start, t.source_end))
+            ctxs.append((t.get_source_context(), t.get_source_context(colorize=True)))
     except Exception as e:  # outcome; spans of the tokens produced so far are still judged
         err = e
-    return toks, err
+    return toks, err, ctxs
+
+
+OPEN_MARK, CLOSE_MARK = "\u29db", "\u29da"
+
+
+def expected_context(s, start, end):
+    return s[:start] + OPEN_MARK + s[start : end + 1] + CLOSE_MARK + s[end + 1 :]
+
+
+def highlighted_span(message, s):
+    """(start, end) of the source characters between the markers of the source context that
+    ends a syntax-error message, or None when the message carries no (well-formed) context."""
+    clean = ANSI.sub("", message)
+    if OPEN_MARK in s or CLOSE_MARK in s or "\x1b" in s or len(clean) < len(s) + 2:
+        return None
+    ctx = clean[-(len(s) + 2) :]
+    a, b = ctx.find(OPEN_MARK), ctx.find(CLOSE_MARK)
+    if not (0 <= a < b) or ctx.replace(OPEN_MARK, "", 1).replace(CLOSE_MARK, "", 1) != s:
+        return None
+    return a, b - 2
 
 
 def check_spans(acc, s, expected=None, family="arbitrary"):
-    toks, err = lib_tokens(s)
+    toks, err, ctxs = lib_tokens(s)
     acc.case((family, s), bool(toks), sample={"string": s, "tokens": toks[:6]} if toks else None)
     prev_end = -1
     problem = None
@@ -578,6 +606,17 @@ def check_spans(acc, s, expected=None, family="arbitrary"):
             problem = ("text-not-in-span", (text, s[start : end + 1]))
             break
         prev_end = end
+    if problem is None and "\x1b" not in s:
+        # the rendering of the recorded span (what every syntax error shows): the text between the
+        # markers is exactly source[start:end+1], the rest of the source surrounds it
+        for (text, kind, start, end), (plain_ctx, colour_ctx) in zip(toks, ctxs):
+            want = expected_context(s, start, end)
+            if plain_ctx != want:
+                problem = ("rendered-context", (text, (start, end), plain_ctx, want))
+                break
+            if colour_ctx is None or ANSI.sub("", colour_ctx) != want or colour_ctx.count("\x1b[") != 2:
+                problem = ("rendered-context-colorized", (text, (start, end), colour_ctx, want))
+                break
     if problem is None and expected is not None and err is None:
         got = [(text, start, end) for text, kind, start, end in toks if kind != "operator"]
         ok = len(got) == len(expected) and all(g[0] == e[0] and g[1] in e[1] and g[2] in e[2] for g, e in zip(got, expected))
@@ -632,7 +671,7 @@ def w_string_tokens(args):
                 continue
             lit = q + p + q
             for s, idx in ((lit, 0), ("a + " + lit, 2), (lit + " + a", 0), ("(" + lit + ")", 1)):
-                toks, err = lib_tokens(s)
+                toks, err, _ = lib_tokens(s)
                 acc.case(("string-token", s), True, sample={"string": s})
                 ok = err is None and idx < len(toks) and toks[idx][0] == lit and toks[idx][1] == "value"
                 if not ok:
@@ -666,7 +705,84 @@ def w_spans_grammar(args):
                 gaps = [rng.choice(ws) for _ in tokens]
             s = "".join(g + t for g, t in zip(gaps, tokens))
             check_spans(acc, s, expected_operand_spans(tokens, gaps), family="grammar")
+            check_error_highlights(acc, tokens, gaps)
     return ("token-spans", acc.result())
+
+
+_OPERATOR_TOKENS = set(E.LEVEL) | {"~", "|", "+", "-"}
+
+HIGHLIGHT_REPRO = '''import re
+from formulaic.parser import DefaultFormulaParser
+from formulaic.errors import FormulaSyntaxError
+s, expected, prefix = {s!r}, {expected!r}, {prefix!r}
+try:
+    DefaultFormulaParser().get_terms(s)
+    msg = None
+except FormulaSyntaxError as e:
+    msg = re.sub(r"\\x1b\\[[0-9;]*m", "", str(e))
+except Exception:
+    msg = None
+if msg is not None and msg.startswith(prefix):
+    ctx = msg[-(len(s) + 2):]
+    a, b = ctx.find("\\u29db"), ctx.find("\\u29da")
+    assert (a, b - 2) == tuple(expected), (s, "highlighted", (a, b - 2), repr(s[a:b - 1]), "offending token span", expected, repr(s[expected[0]:expected[1] + 1]))
+'''
+
+
+def injected_errors(tokens, gaps):
+    """One defect with a known offending token put into a well-formed formula:
+    -> (kind, source, (start, end) of the offending text, expected message prefix)"""
+
+    def build(toks, gps):
+        pos, out, p = [], [], 0
+        for t, g in zip(toks, gps):
+            p += len(g)
+            pos.append(p)
+            out.append(g + t)
+            p += len(t)
+        return "".join(out), pos
+
+    n = len(tokens)
+    names = [t for t in tokens if t.isidentifier()]
+    for i, tok in enumerate(tokens):
+        prev_is_op = i > 0 and tokens[i - 1] in _OPERATOR_TOKENS
+        next_is_op = i + 1 < n and tokens[i + 1] in _OPERATOR_TOKENS
+        if tok in ("*", "/", ":", "**", "^", "%in%") and not prev_is_op and not next_is_op:
+            toks = tokens[:i] + ["@"] + tokens[i + 1 :]
+            src, pos = build(toks, gaps)
+            yield "unknown-operator", src, (pos[i], pos[i]), "Unknown operator '@'"
+        if tok.isidentifier() and names.count(tok) == 1 and i < 6:
+            toks = tokens[:i] + ['"s"'] + tokens[i + 1 :]
+            src, pos = build(toks, gaps)
+            yield "string-literal", src, (pos[i], pos[i] + 2), "String literals are not valid in formulae."
+            toks = tokens[: i + 1] + ["zz"] + tokens[i + 1 :]
+            gps = gaps[: i + 1] + [" "] + gaps[i + 1 :]
+            src, pos = build(toks, gps)
+            yield "missing-operator", src, (pos[i], pos[i + 1] + 1), f"Missing operator between `{tok}` and `zz`."
+    src, pos = build(["("] + tokens, [""] + gaps)
+    yield "unmatched-opener", src, (0, 0), "Could not find matching context marker."
+
+
+def check_error_highlights(acc, tokens, gaps):
+    from formulaic.errors import FormulaSyntaxError
+
+    parser = C1.get_parser(True)
+    for kind, src, want, prefix in injected_errors(tokens, gaps):
+        try:
+            parser.get_terms(src)
+            msg = None
+        except FormulaSyntaxError as e:
+            msg = ANSI.sub("", str(e))
+        except Exception:
+            msg = None
+        judged = msg is not None and msg.startswith(prefix)
+        acc.case(("error-highlight", src), judged, sample={"string": src, "offending_span": list(want)} if judged else None)
+        if not judged:
+            continue  # another error came first / the defect is not an error in this position
+        got = highlighted_span(msg, src)
+        if got != want:
+            w = {"string": src, "message": msg[:300], "highlighted": got, "offending_span": list(want), "code": HIGHLIGHT_REPRO.format(s=src, expected=list(want), prefix=prefix)}
+            acc.fail("C15.spans.error-highlight", kind, w, f"{src!r}: {prefix!r} should highlight {want} = {src[want[0]:want[1] + 1]!r}, the message highlights {got}" + (f" = {src[got[0]:got[1] + 1]!r}" if got else ""))
 
 
 ANSI = re.compile(r"\x1b\[[0-9;]*m")
@@ -695,6 +811,15 @@ def w_spans_arbitrary(args):
                 if not (clean[-(len(s) + 4) : -(len(s) + 2)] == "\n\n" and 0 <= a < b and ctx.replace("⧛", "", 1).replace("⧚", "", 1) == s):
                     w = {"string": s, "message": msg[:300], "code": ERRCTX_REPRO.format(s=s)}
                     acc.fail("C15.spans.error-context", "context-is-not-the-source", w, f"error context of {s!r} is {ctx!r}")
+                elif err is None and toks:
+                    # the marked span starts where some token's recorded span starts and ends where
+                    # some token's recorded span ends (one token, or a run of tokens for a sub-expression)
+                    hs, he = a, b - 2
+                    if not (hs in {t[2] for t in toks} and he in {t[3] for t in toks}) and not clean.startswith(("Formula ended before", "Unexpected character")):
+                        w = {"string": s, "message": msg[:300], "highlighted": [hs, he], "token_spans": [[t[2], t[3]] for t in toks], "code": ERRCTX_BOUNDARY_REPRO.format(s=s)}
+                        first = clean.split("\n", 1)[0]
+                        sub = "missing-operator-before-argumentless-operator" if first.startswith("Missing operator between") and first.rstrip(".").endswith("and `.`") and hs == he else "other"
+                        acc.fail("C15.spans.error-context", f"highlight-not-on-token-boundaries/{sub}", w, f"error context of {s!r} highlights {(hs, he)} = {s[hs:he + 1]!r}, token spans are {[(t[2], t[3]) for t in toks]}")
         except Exception:
             pass
 
@@ -704,6 +829,24 @@ def w_spans_arbitrary(args):
     for s in E.random_char_strings(seed * 977 + shard, nrandom, 14):
         one(s)
     return ("token-spans", acc.result())
+
+
+ERRCTX_BOUNDARY_REPRO = '''import re
+from formulaic.parser import DefaultFormulaParser
+from formulaic.parser.algos.tokenize import tokenize
+from formulaic.errors import FormulaSyntaxError
+s = {s!r}
+toks = list(tokenize(s))
+try:
+    DefaultFormulaParser().get_terms(s)
+    msg = None
+except FormulaSyntaxError as e:
+    msg = re.sub(r"\\x1b\\[[0-9;]*m", "", str(e))
+if msg is not None and "\\u29db" in msg:
+    ctx = msg[-(len(s) + 2):]
+    a, b = ctx.find("\\u29db"), ctx.find("\\u29da")
+    assert a in [t.source_start for t in toks] and b - 2 in [t.source_end for t in toks], (s, (a, b - 2), [(t.source_start, t.source_end) for t in toks])
+'''
 
 
 ERRCTX_REPRO = '''import re
@@ -774,7 +917,9 @@ def run_bounded(ctx):
             "token-spans",
             rule="tokenize(): spans in range, strictly ordered, non-overlapping, holding the token text; for strings rendered from grammar trees the "
             "operand/bracket spans equal the independently known offsets and no non-blank character lies outside every span; for rejected strings the "
-            "printed source context is the source with one marked span",
+            "printed source context is the source with one marked span lying on token boundaries; every token's get_source_context() (plain and colorized) "
+            "renders exactly its recorded span; for grammar strings with one injected defect (unknown operator, string literal operand, missing operator, "
+            "unmatched opener) the error message highlights exactly the offending token(s)",
             exhaustive=False,
             bound=f"grammar trees as in 'whitespace' x 3 renderings; all strings of <= {4 if th else 3} alphabet tokens; {200000 if th else 20000} random strings",
         ),
